@@ -23,7 +23,8 @@ STALE = ["fc/fc", "tinyfo/tinyfo", "cmd/build_sample_md/build_sample_md"]
 NCPU = os.cpu_count() or 4
 
 GOENV = dict(os.environ)
-GOENV.update({"GOFLAGS": "-mod=mod", "GOPROXY": "off", "GOSUMDB": "off", "GOTOOLCHAIN": "local"})
+# -trimpath: scratch copies live at a new path on every run; without it every build misses the Go build cache (and fills the disk)
+GOENV.update({"GOFLAGS": "-mod=mod -trimpath", "GOPROXY": "off", "GOSUMDB": "off", "GOTOOLCHAIN": "local"})
 for _k in ("FOLANG_VERIF_DICTSCHED", "FOLANG_VERIF_DICTLOG"):
     GOENV.pop(_k, None)
 
